@@ -95,7 +95,7 @@ void run()
     gsim::check_races(gsim::param_int("races", 0) != 0);
     State st;
     S = &st;
-    st.count = gsim::knob("count", 1, 3);
+    st.count = gsim::knob("count", 0, 3);  // 0: open from the start
     if (!gsim::prog_loaded()) {
         int n = 2 + gsim::gen_int(4);
         gsim::prog_reset(n);
